@@ -122,6 +122,19 @@ def gen(seed, tier):
             out.append(f"op2a@bool z{o} {arr(s1, [1] * prod(s1))} {arr(s2, [1] * prod(s2))}")
         out.append(f"eq@i32 {arr(s1)} {arr(s2)}")
         out.append(f"cmp@i32 {arr(s1)} {arr(s2)}")
+    # every ordered pair of different shapes from a small set, one-element operands of every rank included (seeded
+    # change C20h: a one-element right operand applied as a scalar before the shape check), all element types
+    small_sh = [[1], [1, 1], [1, 1, 1], [2], [3], [2, 1], [1, 2], [2, 2], [2, 3], [2, 1, 3], [1, 1, 1, 1], [2, 1, 3, 2]]
+    for s1, s2 in itertools.product(small_sh, repeat=2):
+        if s1 == s2:
+            continue
+        for o in range(5):
+            ty = ["i32", "i64", "f64", "i8", "f32p", "i16"][(o + len(s1) + len(s2)) % 6]
+            out.append(f"op2@{ty} z{o} {arr(s1, [2] * prod(s1))} {arr(s2, [1] * prod(s2))}")
+            out.append(f"op2a@{ty} z{o} {arr(s1, [2] * prod(s1))} {arr(s2, [1] * prod(s2))}")
+        for o in (5, 6, 7):
+            out.append(f"op2@{['u8', 'i32', 'bool'][o - 5]} z{o} {arr(s1, [1] * prod(s1))} {arr(s2, [1] * prod(s2))}")
+            out.append(f"op2a@{['bool', 'u8', 'i32'][o - 5]} z{o} {arr(s1, [1] * prod(s1))} {arr(s2, [1] * prod(s2))}")
     # values no double represents exactly: any detour through f64 (as the math module's functions take) shows
     BIG = [2 ** 53 + 1, -(2 ** 53 + 1), 1234567890123456789, 2 ** 62 + 1, -(2 ** 62 + 1), 2 ** 63 - 1, -(2 ** 63 - 1), 9007199254740993]
     for sh in ([1], [3], [2, 2], [2, 1, 2]):
